@@ -148,6 +148,14 @@ impl Check for Identity {
     fn components(&self) -> serde_json::Value {
         serde_json::json!({"real": ["identity_verifier::storage::{verify_identity, validate_claim}", "claim_topics_and_issuers::storage", "identity_registry_storage (add_identity, stored_identity)", "identity_claims (add/remove/get)", "claim_issuer helpers: key registry, expiry, revocation, nonce, Ed25519Verifier", "host ed25519_verify"], "stub": ["none (signatures are produced with ed25519-dalek in the harness)"]})
     }
+    fn property_of(&self, check: &str) -> std::vec::Vec<&'static str> {
+        // the identity-claims registry clauses are shared with C20
+        if check.starts_with("claims.") {
+            vec!["C15", "C20"]
+        } else {
+            vec!["C15"]
+        }
+    }
     fn clock_step(&self, n: u32) -> Option<Step> {
         Some(Step::AdvanceTime { secs: n as u64 * 5 })
     }
@@ -346,6 +354,33 @@ impl Check for Identity {
                 if got != exp {
                     let check = if kind == "add_claim" { "add_claim.accepts_iff_valid" } else { "registry.model_eq" };
                     return Err(violation(check, kind, i_step, format!("{s:?}: real {got} model {exp}; now {} keys {:?} trusted {:?}", m.now, m.keys, m.trusted)));
+                }
+            }
+            // the identity's claim registry (by topic and by id) holds exactly the claims added and not removed
+            for (ix, idc) in idents.iter().enumerate() {
+                let icl = IdentClient::new(e, idc);
+                for t in 0..4u32 {
+                    let want: BTreeSet<usize> = m.held.keys().filter(|k| k.0 == ix && k.2 == t).map(|k| k.1).collect();
+                    let ids = match icl.try_get_claim_ids_by_topic(&t) {
+                        Ok(Ok(v)) => v,
+                        _ if want.is_empty() => continue,
+                        other => return Err(violation("claims.getters_eq_model", "get_claim_ids_by_topic", i_step, format!("investor {ix} topic {t}: {:?}, model issuers {want:?} after {s:?}", other.map(|x| x.is_ok())))),
+                    };
+                    let mut seen: BTreeSet<usize> = BTreeSet::new();
+                    for cid in ids.iter() {
+                        let cl = match icl.try_get_claim(&cid) {
+                            Ok(Ok(c)) => c,
+                            _ => return Err(violation("claims.getters_eq_model", "get_claim", i_step, format!("investor {ix} topic {t}: a listed claim id does not resolve after {s:?}"))),
+                        };
+                        let who = issuers.iter().position(|a| *a == cl.issuer);
+                        match who {
+                            Some(k) if cl.topic == t && want.contains(&k) && seen.insert(k) && cid == ic::generate_claim_id(e, &issuers[k], t) => {}
+                            _ => return Err(violation("claims.enum_each_once", "get_claim_ids_by_topic", i_step, format!("investor {ix} topic {t}: listed claim of issuer {who:?} topic {} is not (or not once) in the model {want:?} after {s:?}", cl.topic))),
+                        }
+                    }
+                    if seen != want {
+                        return Err(violation("claims.getters_eq_model", "get_claim_ids_by_topic", i_step, format!("investor {ix} topic {t}: lists issuers {seen:?}, model {want:?} after {s:?}")));
+                    }
                 }
             }
             // "signed by a key currently allowed for the topic": the issuer's key / topic relation equals the model
